@@ -83,7 +83,7 @@ def gen_cases(tier, seed):
             for k, s in enumerate(shells):
                 s["c"] = [float(0.9 * k), 0.0, 0.0]
             classes.append("frame:x-axis")
-        if i % 4 != 1:
+        if i % 4 != 1 and not (eri and i % 16 == 15):  # the g-shell repulsion cases get a general rotation: axis permutations map xxyy to yyzz, the same normalisation class
             spidx = (nsp + 7 * seed) % 48
             nsp += 1
             R = SP[spidx]
